@@ -196,7 +196,7 @@ func VerifC20_C_deps_rdeps() {
 // owners f: exactly the targets whose resolved inputs contain f, for every spelling of the input
 func VerifC20_C_owners() {
 	setup()
-	spellings := []string{"a.txt", "./a.txt", "sub/../a.txt", "sub/a.txt", "../p/a.txt", "b.txt", "a.txt.tmpl"}
+	spellings := []string{"a.txt", "./a.txt", "sub/../a.txt", "sub/a.txt", "../p/a.txt", "b.txt", "a.txt.tmpl", "A.txt"}
 	files := []string{"p/a.txt", "p/sub/a.txt", "q/a.txt", "p/b.txt"}
 	k := 2
 	q := &qgraph{}
@@ -204,7 +204,10 @@ func VerifC20_C_owners() {
 	for i := 0; i < k; i++ {
 		pkg := []string{"p", "q", ""}[sym.Choice(fmt.Sprintf("pkg_%d", i), 3)]
 		t := &model.Target{Label: label.TL(pkg, fmt.Sprintf("n%d", i))}
-		nIn := sym.Choice(fmt.Sprintf("n_inputs_%d", i), 3)
+		nIn := 1 // the second target has one input, the first up to two
+		if i == 0 {
+			nIn = sym.Choice("n_inputs_0", 3)
+		}
 		for j := 0; j < nIn; j++ {
 			t.Inputs = append(t.Inputs, spellings[sym.Choice(fmt.Sprintf("input_%d_%d", i, j), len(spellings))])
 		}
